@@ -28,7 +28,7 @@ CLAIMS = {
              'ones (cover columns and final_source) (KEY); cached maps and the memoised hash are write-once — only '
              'readers and first-writers (VacantEntry::insert / Entry::or_insert*) touch the map cache, the cache fields '
              'are never reassigned (WRITEONCE); memo cells are used through get/get_or_init/clone only and every initialiser '
-             'reads data fields only (MEMO). NOT decided: that replay from (cached map + rope) attributes like the wrapped source. Added: both map collectors (map() and the cache-filling tee) feed every mapping to the encoder unconditionally (ENCODE-ALL), a necessary condition of replay transparency; content views forward (DELEG). Round 3: the cache is never traversed, only read under the caller\'s key (KEY); MEMO covers every OnceLock/OnceCell cell; MEMO-RESET. Round 4: ENC-DEDUP — the cached map is produced by an encoder that does not swallow differing segments. TEE-FORWARD registered here as well (the first, cache-filling stream is as good as the wrapped source\'s own). SIBLING-SPLICE registered here as well: the replay streams rope(), which must render to source().',
+             'reads data fields only (MEMO). NOT decided: that replay from (cached map + rope) attributes like the wrapped source. Added: both map collectors (map() and the cache-filling tee) feed every mapping to the encoder unconditionally (ENCODE-ALL), a necessary condition of replay transparency; content views forward (DELEG). Round 3: the cache is never traversed, only read under the caller\'s key (KEY); MEMO covers every OnceLock/OnceCell cell; MEMO-RESET. Round 4: ENC-DEDUP — the cached map is produced by an encoder that does not swallow differing segments. TEE-FORWARD registered here as well (the first, cache-filling stream is as good as the wrapped source\'s own). SIBLING-SPLICE registered here as well: the replay streams rope(), which must render to source(). Round 7: COLLECTOR-SIBLING - get_map and the cache-filling tee store announced file names, contents and names in the same shape.',
         technique='who-may-call / receiver-type allow-list over resolved callees, def-use key provenance on MIR',
         design_ref='§5 C10'),
     'C14': dict(
@@ -37,7 +37,7 @@ CLAIMS = {
              'calls on self) reads cache state except through a memo accessor, memo cells are never compared/hashed/mutated '
              'themselves and all initialisers of a cell agree (MEMO); `==` of every type compares every data field (EQCOVER); '
              'Hash reads no data field Eq ignores, i.e. a==b implies equal hashes (HASH-IN-EQ); every hand-written Clone copies '
-             'every data field from self (CLONECOVER). NOT decided: "equal values give equal answers from every observer" as behaviour. Also registered here because the clauses depend on them: RESET/FRESH (the sorted accessor MEMO trusts is pure only if they hold), KEY/WRITEONCE (repeating an observer call never changes its answer), HASHALL (a container hash covers every element). Round 3: a cache shared between clones requires immutable data (CLONECOVER shared-cache); MEMO-RESET. Round 3b: EQ-ALLPATHS — in a hand-written eq, every path to `true` compares every data field (no data-dependent shortcut to equality). Round 5: FRESH also requires that a copied sorted-flag comes with a copied index (Clone); EQ-ALLPATHS requires a length comparison next to an element-wise zip. Round 6: MEMO — inside Eq / Hash a memo cell may only be the receiver of get_or_init (get() would reveal whether it has been filled).',
+             'every data field from self (CLONECOVER). NOT decided: "equal values give equal answers from every observer" as behaviour. Also registered here because the clauses depend on them: RESET/FRESH (the sorted accessor MEMO trusts is pure only if they hold), KEY/WRITEONCE (repeating an observer call never changes its answer), HASHALL (a container hash covers every element). Round 3: a cache shared between clones requires immutable data (CLONECOVER shared-cache); MEMO-RESET. Round 3b: EQ-ALLPATHS — in a hand-written eq, every path to `true` compares every data field (no data-dependent shortcut to equality). Round 5: FRESH also requires that a copied sorted-flag comes with a copied index (Clone); EQ-ALLPATHS requires a length comparison next to an element-wise zip. Round 6: MEMO — inside Eq / Hash a memo cell may only be the receiver of get_or_init (get() would reveal whether it has been filled). COLLECTOR-SIBLING registered here as well.',
         technique='field-access-set analysis (A-FIELDS) over Eq/Hash/Clone cones on MIR; DATA/CACHE classification by Freeze',
         design_ref='§5 C14'),
     'C18': dict(
@@ -143,7 +143,7 @@ CLAIMS = {
              'either forwards the child numbering unchanged or renumbers through its tables, and every OriginalLocation it builds takes the index '
              'from the matching origin; a child-local index never leaks into a renumbered space (IDX: closure-, table- and adaptor-aware origin '
              'analysis); ReplaceSource advances the original column only under the content check (ADVANCE). NOT decided: positions, that the '
-             'translated entry is the right one beyond its numbering, the amount of the advance. Added: the guard\'s verdict is the content check\'s own result for that site, not a remembered one (ADVANCE freshness); a chunk delivered with the child\'s own location object counts as child-local for both index kinds (IDX forwarded). Round 4: FORWARD-ALL — ConcatSource forwards every child notification (or records a pending close) on every path. STICKY registered here as well (an empty child must not clear the pending close). TEE-FORWARD registered here as well.',
+             'translated entry is the right one beyond its numbering, the amount of the advance. Added: the guard\'s verdict is the content check\'s own result for that site, not a remembered one (ADVANCE freshness); a chunk delivered with the child\'s own location object counts as child-local for both index kinds (IDX forwarded). Round 4: FORWARD-ALL — ConcatSource forwards every child notification (or records a pending close) on every path. STICKY registered here as well (an empty child must not clear the pending close). TEE-FORWARD registered here as well. COLLECTOR-SIBLING registered here as well.',
         technique='index-space origin (taint-style) dataflow over MIR expression trees with closure capture and table summaries; guard provenance',
         design_ref='§5 C06'),
     'C08': dict(
@@ -159,7 +159,7 @@ CLAIMS = {
         text='Static: the index-table discipline of the combined-map combinator — both index kinds are renumbered and both emitting '
              'aggregates take source/name indices only from the announced (global) numbering or tables filled from it; outer/inner local '
              'indices are used as keys only (IDX); each of its six de-duplication inserts stores len() and is followed by the announcement of '
-             'that value (PAIR). NOT decided: the binary search, identity-column adjustment, name matching, fallback semantics. Added: an announced fresh index is paired with an insertion into the same de-duplication map (PAIR converse); outer-name lookups that can reach an inner-mapped location are dominated by the name-vs-original-text comparison (NAMECHECK). Round 3: KEYSPACE and SIDES (translation tables are keyed in one numbering; tables handed to one helper belong to one child stream). Round 4: CTOR-VERBATIM — SourceMapSource constructors store the remove_original_source request as given. Round 5: CTOR-VERBATIM covers every constructor field (value, name, maps, original source), not only the removal flag. Round 6: PREFILL — every lazily resolved translation table (read with a negative sentinel) receives an explicit entry for every announced key on every path of the announcement callback.',
+             'that value (PAIR). NOT decided: the binary search, identity-column adjustment, name matching, fallback semantics. Added: an announced fresh index is paired with an insertion into the same de-duplication map (PAIR converse); outer-name lookups that can reach an inner-mapped location are dominated by the name-vs-original-text comparison (NAMECHECK). Round 3: KEYSPACE and SIDES (translation tables are keyed in one numbering; tables handed to one helper belong to one child stream). Round 4: CTOR-VERBATIM — SourceMapSource constructors store the remove_original_source request as given. Round 5: CTOR-VERBATIM covers every constructor field (value, name, maps, original source), not only the removal flag. Round 6: PREFILL — every lazily resolved translation table (read with a negative sentinel) receives an explicit entry for every announced key on every path of the announcement callback. Round 7: COMBINE-WHEN-INNER - the choice between combined and plain streaming tests the presence of inner_source_map itself.',
         technique='index-space origin dataflow + post-dominator pairing on MIR',
         design_ref='§5 C09'),
     'C11': dict(
